@@ -1,6 +1,6 @@
 (* OblC02.v — generated-table obligations for the encoders (C02, C09); compiled on every run. *)
 From NV Require Import Base Bits Defn PyNum Fields Dispatch Template TemplateEnc Encode Spec SpecProofs EncodeProofs FloatRT.
-From NVGen Require Import GenDb GenCode GenLookups.
+From NVGen Require Import GenDb GenCode GenLookups GenDbLookups.
 
 Definition db_groups : list (list dbdef) := groups db_defs.
 Definition enc_defs : list dbdef := filter encodable (flat_map bound_defs db_groups).
@@ -15,6 +15,17 @@ Proof. vm_compute. reflexivity. Qed.
 Definition no_small_signed (d : dbdef) : bool :=
   forallb (fun f => negb (f_signed f) || match f_bitlen f with Some l => 4 <=? l | None => true end) (d_fields d).
 Theorem C02_side : forallb (fun d => layout_ok d && no_small_signed d) enc_defs = true.
+Proof. vm_compute. reflexivity. Qed.
+
+(* the name -> value dictionaries the encoders use for a LOOKUP field given by name (lookup_dict_encode_<T>) are the
+   database's tables inverted (Python dict-literal semantics: a repeated name keeps its first position and takes the
+   last value): a name is never encoded to a value the database lists under another name *)
+Definition inv_tbl (e : str * list (Z * str)) : str * list (str * Z) :=
+  (fst e, dict_of Z.eqb (map (fun vn => (snd vn, fst vn)) (snd e))).
+Definition enc_tbl_eqb (a b : str * list (str * Z)) : bool :=
+  (fst a =? fst b) && list_eqb (fun x y => (fst x =? fst y) && (snd x =? snd y)) (snd a) (snd b).
+Theorem C09_enc_lookups :
+  list_eqb enc_tbl_eqb code_enc_lookups (dict_of Z.eqb (map inv_tbl db_lookups)) = true.
 Proof. vm_compute. reflexivity. Qed.
 
 (* C02/C09 at the payload level for the code of this run: every encodable definition, every message *)
